@@ -437,6 +437,47 @@ def finishScan (st : St) : Except Err (List Module) :=
   else if st.cur.isSome then .error (.syntax "absent endmodule")
   else .ok st.done
 
+/-! ## `module->last_temp_item_num`
+
+The label loop calls `process_reserved_name (name, ".lc", &module->last_temp_item_num)` for every
+label of every statement read while a module is open (mir.c:6380-6383; the `module` line itself is read
+while `module == NULL`).  The counter is not written by `MIR_output`, but the loader names the data
+items it creates for string and floating immediates `.lc<counter+1>` (mir.c:3323), so it must end
+up at least as large as every `.lcN` name of the text. -/
+
+/-- number of a reserved temporary item name `.lc<digits>` as `process_reserved_name` computes it
+(`strtoul` in base 10 into a `uint32_t`; a name with anything but digits after the prefix is ignored) -/
+def tempItemNum (n : Str) : Option Nat :=
+  match n with
+  | '.' :: 'l' :: 'c' :: ds =>
+    if ds.all isDigit then some ((min (accDigits 10 ds 0) (2 ^ 64 - 1)) % 2 ^ 32) else none
+  | _ => none
+
+/-- `if (*max_num < num) *max_num = num;` -/
+def bumpTemp (cur : Nat) (n : Str) : Nat :=
+  match tempItemNum n with
+  | some k => if cur < k then k else cur
+  | none => cur
+
+/-- the counters of the modules of a text, in order (`none`: no module open) -/
+def lastTempsOf : List Stmt → Option Nat → List Nat → List Nat
+  | [], _, done => done
+  | s :: ss, cur, done =>
+    match cur with
+    | none => lastTempsOf ss (if s.head = .module then some 0 else none) done
+    | some k =>
+      let k' := s.labels.foldl bumpTemp k
+      if s.head = .endmodule then lastTempsOf ss none (done ++ [k']) else lastTempsOf ss (some k') done
+
+/-- `last_temp_item_num` of every module after `MIR_scan_string` (meaningful when `scanText` accepts) -/
+def scanLastTemps (cs : List Char) : Except Err (List Nat) :=
+  match lexAll cs with
+  | .error e => .error e
+  | .ok toks =>
+    match parseStmts toks with
+    | .error e => .error e
+    | .ok stmts => .ok (lastTempsOf stmts none [])
+
 /-- `MIR_scan_string` on a fresh context followed by reading back the module list -/
 def scanText (cs : List Char) : Except Err (List Module) :=
   match lexAll cs with
